@@ -48,6 +48,19 @@ func RunS2(c *core.Ctx) {
 					want = append(want, f.GetName())
 				}
 			}
+			if len(sc.SomeNoFile) > 0 {
+				var w2 []string
+				for _, n := range want {
+					skip := false
+					for _, x := range sc.SomeNoFile {
+						skip = skip || x == n
+					}
+					if !skip {
+						w2 = append(w2, n)
+					}
+				}
+				want = w2
+			}
 			if respErr != "" {
 				c.Fail("GEN.run", con, "generator answered a valid proto3 schema with an error: "+clip(respErr, 300), "", src)
 				break
